@@ -12,6 +12,52 @@ import (
 
 func init() {
 	vpRegister("c06_signsteps", vpH_c06_signsteps)
+	vpRegister("c06_envnames", vpH_c06_envnames)
+}
+
+// Pipeline variable names are arbitrary strings: the env:: namespacing must
+// work for every name, in particular names made of the characters the signing
+// code itself handles (the namespace prefix, separators).
+func vpH_c06_envnames() {
+	ctx := context.Background()
+	class := "A_a" + vpConstChars("*sign.go")
+	name := vpStr(1, class) + vpStrUpTo(2, class)
+	val := vpStrUpTo(1, "x-y")
+	shadow := vpBool()
+	step := &pipeline.CommandStep{Command: "c"}
+	if shadow {
+		step.Env = map[string]string{name: "s"}
+	}
+	penv := map[string]string{name: val}
+	s := vpSigSigner(1)
+	err := SignSteps(ctx, pipeline.Steps{step}, s, "r", WithEnv(penv))
+	vpAssert(err == nil && step.Signature != nil, "signing succeeds for every pipeline variable name")
+	if err != nil || step.Signature == nil {
+		return
+	}
+	sig := step.Signature
+	n := 0
+	for i, f := range sig.SignedFields {
+		if f == "env::"+name {
+			n++
+		}
+		if i > 0 {
+			vpAssert(sig.SignedFields[i-1] < f, "signed fields are sorted and distinct")
+		}
+	}
+	if shadow {
+		vpAssert(n == 0 && len(sig.SignedFields) == 5, "a shadowed pipeline variable is not signed")
+	} else {
+		vpAssert(n == 1 && len(sig.SignedFields) == 6, "an unshadowed pipeline variable is signed as env::NAME, whatever its name")
+	}
+	venv := map[string]string{"UNRELATED": "u", name: val}
+	verr := Verify(ctx, sig, s, &CommandStepWithInvariants{CommandStep: *step, RepositoryURL: "r"}, WithEnv(venv))
+	vpAssert(verr == nil, "the attached signature verifies for every pipeline variable name")
+	if !shadow {
+		venv[name] = val + "!"
+		verr = Verify(ctx, sig, s, &CommandStepWithInvariants{CommandStep: *step, RepositoryURL: "r"}, WithEnv(venv))
+		vpAssert(verr != nil, "a changed value of the signed pipeline variable is refused, whatever its name")
+	}
 }
 
 type vpStepInfo struct {
